@@ -86,6 +86,7 @@ namespace vh {
     std::vector<char> level;       // 's' scheme-level, 't' transition outcome, 'b' bb-level, 'e' planned beta trial, 'i' inside a primitive / elsewhere
     size_t ndraws = 0;
     long pin_pos = -1;
+    long pin_len = 1;              // a run of pin_len consecutive deviates from pin_pos on is pinned
     double pin_val = 0.5;
     size_t max_draws = 2000000;
     explicit PlanSource(uint64_t seed_ = 7) : fallback(seed_) {}
@@ -143,7 +144,7 @@ namespace vh {
         bpos++;
       }
       if (!planned) u = fallback();
-      if ((long)ndraws == pin_pos) u = pin_val;
+      if (pin_pos >= 0 && (long)ndraws >= pin_pos && (long)ndraws < pin_pos + pin_len) u = pin_val;
       log.push_back(u);
       level.push_back(lv);
       ndraws++;
